@@ -24,11 +24,11 @@ BOUNDS = dict(quick=dict(nodes="2..4 nodes with <= 1 break, coordinates symbolic
                          refinement="factor 1..3", Kline="break_thresh = inf and a symbolic threshold", tabulation="concrete paths of 5..7 points (closed loop, k and k+G, break), k_batch 1,2,3,100, "
                          "<= 4 batches: all arrival orders, more: rotations and reversals of the list order", values="one symbolic atom per (k-point mod G, band, component)"),
               thorough=dict(nodes="2..8 nodes with <= 3 breaks (also leading single nodes and double None), coordinates symbolic reals in [-1/2,1/2]",
-                            nk="2..7 per segment, non-uniform lists such as [2,5,3,2,6], [4,4,2,3,5,2]; dk / length with 1..6 symbolic segments and up to 6 candidate point counts per segment (up to 243 feasible count patterns)",
-                            refinement="factor 1..5 and depth 2..3 (refined path refined again: 2x3, 3x2x2, 2x2x3, 5x2, 4x3, 1x4x2)", Kline="break_thresh = inf, and a symbolic threshold on direct paths of <= 8 points (every above/below pattern of the steps is a path)",
+                            nk="2..7 per segment, non-uniform lists such as [2,5,3,2,6], [4,4,2,3,5,2]; dk / length with 1..6 symbolic segments and up to 6 candidate point counts per segment (up to 729 feasible count patterns)",
+                            refinement="factor 1..5 and depth 2..3 (refined path refined again: 2x3, 3x2x2, 2x2x3, 5x2, 4x3, 1x4x2)", Kline="break_thresh = inf, and a symbolic threshold on direct paths of <= 10 points (every above/below pattern of the steps is a path)",
                             direct_paths="3..12 points, labels and up to 3 breaks at arbitrary positions",
                             tabulation="concrete paths of 5..12 points (closed loop, k and k+G, breaks, repeated points, 12-point path with 4 non-uniform segments), k_batch 1,2,3,4,5,7,100, "
-                            "<= 8 batches: all arrival orders (5040 for 7 split over 7 cases, 40320 for 8 split over 56 cases), more: rotations and reversals", values="one symbolic atom per (k-point mod G, band, component), nb <= 4, rank <= 3"))
+                            "<= 8 batches: all arrival orders (5040 for 7 split over 7 cases, 40320 for 8 split over 56 cases, two 8-point paths), more: rotations and reversals", values="one symbolic atom per (k-point mod G, band, component), nb <= 4, rank <= 3"))
 EXPLANATION = ("Path.from_nodes/get_refined/getKline run on symbolic node coordinates (number of points from dk/length is decided by forks on the symbolic segment length); the resulting K_list is "
                "compared with an own statement (node rows exactly, interior points within the linspace rounding, refined points exactly, Kline steps = sqrt atoms >= 0, zero at breaks). "
                "Path tabulation drives the real run() on concrete paths with symbolic per-point values and a symbolic arrival order of the K-point batches; z3 decides that row i of the "
@@ -298,6 +298,7 @@ TAB_PATHS = dict(
     long=dict(nodes=[[0, 0, 0], [0.5, 0, 0], [0.5, 0.5, 0], None, [0, 0.5, 0.5], [1, 0.5, 0.5], [1, 1, 1]], nk=[3, 4, 2, 5], labels=["G", "X", "M", "Y", "Y'", "G'"]),
     eight=dict(k_list=[[0.0, 0.0, 0.0], [0.25, 0.0, 0.0], [0.5, 0.0, 0.0], [0.25, 1.0, 0.0], [0.0, 0.0, 1.0], [0.5, 0.5, 0.0], [-0.5, 0.0, 0.0], [0.25, 0.25, 0.25]],
                labels={0: "G", 4: "G", 7: "L"}, breaks=[4]),
+    eight2=dict(nodes=[[0, 0, 0], [0.5, 0, 0], None, [0.5, 0.5, 0], [1.5, 0.5, 0], [0, 0, 1]], nk=[3, 2, 4], labels=["G", "X", "M", "M'", "G'"]),
     zigzag=dict(k_list=[[0.25, 0.5, 0.0], [0.75, 0.5, 0.0], [0.25, 0.5, 0.0], [1.25, -0.5, 1.0], [0.75, 0.5, 0.0], [-0.25, 0.5, 2.0], [0.25, 0.5, 0.0], [0.3, 0.1, 0.9], [-0.75, 1.5, 0.0]],
                 labels={0: "P", 8: "Q"}, breaks=[3, 6]),
 )
@@ -472,18 +473,18 @@ def _cases(tier, seed):
         out.append(Case(f"from_nodes {pat} nk={nk} labels={labels}", case_sym, dict(kind="nodes", P=P), timeout=3000))
     for pat, mode, dk in [("NN", "dk", 0.375), ("NNN", "length", 0.375), ("NN-N", "dk", 0.3125)] + ([] if q else [("NNN", "dk", 0.25), ("N-NN", "length", 0.3125), ("NNNN", "dk", 0.3125), ("NN-NNN", "length", 0.25),
                                                                                                            ("NNN", "dk", 0.1875), ("NN-NN-NN", "dk", 0.375), ("NNNNN", "length", 0.4375),
-                                                                                                           ("NNNNNN", "dk", 0.4375), ("NNNN", "dk", 0.1875), ("N-NNN-NNN", "length", 0.3125)]):
+                                                                                                           ("NNNNNN", "dk", 0.4375), ("NNNN", "dk", 0.1875), ("N-NNN-NNN", "length", 0.3125), ("NNNNNNN", "dk", 0.4375)]):
         P = dict(pattern=pat, nnodes=pat.count("N"), mode=mode, dk=dk, labels=None, factors=[2], thresholds=["inf"], cartesian=True)
         out.append(Case(f"from_nodes {pat} {mode}={dk if mode == 'dk' else 2 * np.pi / dk:.4f} (symbolic segment length decides nk)", case_sym, dict(kind="nodes", P=P), timeout=3000))
     for n, labs, brk in [(3, {0: "a", 2: "c"}, []), (4, {1: "x", 3: "y"}, [1]), (4, {2: "m"}, [0, 2])] + ([] if q else [(5, {0: "a", 2: "b", 4: "c"}, [1, 3]), (5, {4: "z"}, [3]), (6, {1: "p", 4: "q", 5: "r"}, [2]),
-                                                                                                         (7, {0: "s", 3: "t", 6: "u"}, [1, 4]), (9, {2: "v", 8: "w"}, [0, 3, 7]), (8, {0: "h", 7: "i"}, [3]), (12, {0: "j", 5: "k", 11: "l"}, [2, 6, 9])]):
-        P = dict(nnodes=n, labels_at={str(k): v for k, v in labs.items()}, breaks=brk, factors=[1, 2, 3] if q else [1, 2, 3, 4, 5], thresholds=["inf", "thr"] if n <= (4 if q else 8) else ["inf"], cartesian=True,
+                                                                                                         (7, {0: "s", 3: "t", 6: "u"}, [1, 4]), (9, {2: "v", 8: "w"}, [0, 3, 7]), (8, {0: "h", 7: "i"}, [3]), (12, {0: "j", 5: "k", 11: "l"}, [2, 6, 9]), (9, {4: "n"}, [1, 5]), (10, {0: "o", 9: "p"}, [4])]):
+        P = dict(nnodes=n, labels_at={str(k): v for k, v in labs.items()}, breaks=brk, factors=[1, 2, 3] if q else [1, 2, 3, 4, 5], thresholds=["inf", "thr"] if n <= (4 if q else 10) else ["inf"], cartesian=True,
                  refine_again=again)
         out.append(Case(f"direct path n={n} labels={labs} breaks={brk} (refine, Kline with symbolic break_thresh)", case_sym, dict(kind="direct", P=P), timeout=3000))
     # tabulation
     maxall = 4 if q else 6
     system = SimpleNamespace(real_lattice=PG.real_lattice, recip_lattice=PG.recip_lattice, pointgroup=PG, num_wann=2)
-    for name, nb, rank, ib in [("loop", 2, 1, None), ("brk", 3, 0, [2, 0]), ("length", 2, 2, None), ("klist", 2, 1, [1])] + ([] if q else [("long", 3, 1, [2, 0]), ("zigzag", 2, 2, None), ("long", 4, 3, [3, 1, 0]), ("eight", 2, 0, None)]):
+    for name, nb, rank, ib in [("loop", 2, 1, None), ("brk", 3, 0, [2, 0]), ("length", 2, 2, None), ("klist", 2, 1, [1])] + ([] if q else [("long", 3, 1, [2, 0]), ("zigzag", 2, 2, None), ("long", 4, 3, [3, 1, 0]), ("eight", 2, 0, None), ("eight2", 3, 2, [2, 1])]):
         npts = len(build_tab_path(dict(path=name), system).K_list)
         for kb in ((1, 2, 3, 100) if q else (1, 2, 3, 4, 5, 7, 100)):
             nbatch = -(-npts // kb)
